@@ -405,7 +405,7 @@ def go_harness(ctx, pkg, test, *, env=None, tags="verif", timeout=600, race=Fals
     if netns and have_netns():
         import shlex
         # (two extra interfaces whose names begin with a digit: zone names are not only "lo" and "eth0")
-        cmd = ["unshare", "-n", "sh", "-c", "ip link set lo up; ip link add 6to4 type veth peer name 4g-modem 2>/dev/null; exec " + " ".join(shlex.quote(c) for c in cmd)]
+        cmd = ["unshare", "-n", "sh", "-c", "ip link set lo up; ip -6 addr add fe80::1/64 dev lo nodad 2>/dev/null; ip link add 6to4 type veth peer name 4g-modem 2>/dev/null; exec " + " ".join(shlex.quote(c) for c in cmd)]
     t0 = time.time()
     rc, out = run(ctx, cmd, timeout, env=e, cwd=REPO)
     wall = time.time() - t0
